@@ -71,7 +71,7 @@ def gap_tol(n: int, scale: float) -> float:
     return 1e-9 * max(float(scale), 1e-300) * (1 << n)
 
 
-SCALES = (1.0, 1.0, 1.0, 1.0, 1e-7, 1e-3, 1e3, 1e6)
+SCALES = (1.0, 1.0, 1.0, 1.0, 1e-10, 1e-7, 1e-3, 1e3, 1e6)
 
 
 def ulp_slack(n: int, scale: float, factor: float = 64.0) -> float:
